@@ -1,4 +1,4 @@
-/* merge DSO for the mtbl_merge tool (MTBL_MERGE_DSO / MTBL_MERGE_FUNC_PREFIX=vsbag): bag union of 2-byte big-endian tokens */
+/* merge DSO for the mtbl_merge tool (MTBL_MERGE_DSO / MTBL_MERGE_FUNC_PREFIX=vsbag): bag union of 2-byte big-endian tokens, tokens from 0x8000 on cancelling in pairs */
 #include <stdint.h>
 #include <stdlib.h>
 #include <stddef.h>
@@ -29,6 +29,7 @@ void vsplain_func(void *clos, const uint8_t *key, size_t len_key, const uint8_t 
 		unsigned b = j + 1 < n1 ? (unsigned)(v1[j] << 8 | v1[j + 1]) : 0x10000;
 		unsigned t;
 		if (a <= b) { t = a; i += 2; } else { t = b; j += 2; }
+		if (t >= 0x8000 && k >= 2 && r[k - 2] == (uint8_t)(t >> 8) && r[k - 1] == (uint8_t)t) { k -= 2; continue; }      /* as in mtbl_drv.c */
 		r[k++] = (uint8_t)(t >> 8); r[k++] = (uint8_t)t;
 	}
 	*out = r; *nout = k;
